@@ -80,8 +80,29 @@ def E_to_py(E):
     return cl[0] if len(cl) == 1 else tuple(cl)
 
 
+def np_params(n):
+    """does the build of this node hand its integer parameters over as numpy scalars?"""
+    import zlib
+    return zlib.crc32(n.key().encode()) % 6 == 0
+
+
+def uses_np_params(n):
+    return np_params(n) or any(uses_np_params(k) for k in n.kids)
+
+
 def build_impl(n, ld):
     """Node -> lazy_dataset object (exceptions propagate = construction refused)"""
+    obj = _build_impl(n, ld)
+    try:
+        # remembered for the index queries: numpy itself turns uint64 * int64 into a float, so an unsigned 64-bit index is
+        # only combined with plain-int parameters (batch(np.int64(2))[np.uint64(6)] is numpy's arithmetic, not the library's)
+        obj._verif_np_params = uses_np_params(n)
+    except Exception:
+        pass
+    return obj
+
+
+def _build_impl(n, ld):
     op, a = n.op, n.a
     K = [build_impl(k, ld) for k in n.kids]
     if op == 'list':
@@ -91,7 +112,7 @@ def build_impl(n, ld):
     d = K[0] if K else None
     # integer parameters arrive as numpy scalars in about one program out of six (np.prod(..), len // np.int64(..) in user code)
     import zlib
-    I = (lambda x: np.int64(x) if isinstance(x, int) and not isinstance(x, bool) else x) if zlib.crc32(n.key().encode()) % 6 == 0 else (lambda x: x)
+    I = (lambda x: np.int64(x) if isinstance(x, int) and not isinstance(x, bool) else x) if np_params(n) else (lambda x: x)
     # about one program in three leaves out every argument that equals its documented default (drop_last=False, lazy=True,
     # reverse=False, backend='t', catch_filter_exception=None, shuffle(reshuffle=False), tile(shuffle=False), cache(lazy=True), catch()):
     # a changed default in the library then shows
@@ -306,8 +327,12 @@ def run_query(obj, q):
         i = q[1]
         if len(q) > 2 and q[2] == 'np':
             # numpy integer scalars of every width and signedness (unsigned ones for non-negative positions)
-            tys = [np.int64, np.int32, np.int16, np.intp] + ([np.uint8, np.uint16, np.uint32, np.uint64] if q[1] >= 0 else [])
-            i = tys[zlib_crc(repr(q)) % len(tys)](q[1])
+            tys = [np.int64, np.int32, np.int16, np.intp] + ([np.uint8, np.uint16, np.uint32] if q[1] >= 0 else [])
+            if q[1] >= 0 and not getattr(obj, '_verif_np_params', True):
+                tys.append(np.uint64)
+            # a narrow type is used where position * batch size still fits it (numpy wraps uint8(60) * 5 around by itself)
+            tys = [t for t in tys if abs(q[1]) * 16 <= np.iinfo(t).max]
+            i = tys[zlib_crc(repr(tuple(q))) % len(tys)](q[1])
         return (f'(QGetI {z(q[1])})', 'val', obs_call(lambda: obj[i]))
     if k == 'getk':
         return (f'(QGetK {coq_str(q[1])})', 'val', obs_call(lambda: obj[q[1]]))
